@@ -231,9 +231,11 @@ def _h2(reuse_mod):
             det = t[0] * t[3] - t[1] * t[2]
             COUNT["H2.hit_mirror" if det < 0 else "H2.hit_direct"] += 1
             donor = None
-            for name, d in self._reusable_paths.values():
-                if name == res.glyph_name:
-                    donor = d
+            for held in self._reusable_paths.values():
+                # one (name, path) per key, or a list of them (trees that keep several donors under one normal form)
+                for name, d in ([held] if isinstance(held, tuple) else held):
+                    if name == res.glyph_name:
+                        donor = d
             if donor is None:
                 _fail("H2", "reuse names a glyph that is not in the cache", glyph=res.glyph_name)
                 return res
